@@ -130,7 +130,7 @@ theorem dir_ne_of_ne {al : List Bind} (hnd : (al.map (·.dir)).Nodup) {k k' : Na
 /-- Equalising the pairs `(k, b)`: device sub-command `al[k]` and target sub-command `b` of the same direction. -/
 theorem proc_eqs {e : Env} (hwf : WFE e) {P : List Name} {d0 : Dev} (i : Nat) (x : String) (al : List Bind) (hA : BindsA e d0 x al)
     (ps : List (Nat × Bind)) (hks : ∀ p ∈ ps, p.1 < al.length ∧ (al.getD p.1 default).dir = p.2.dir ∧
-      e.b.hasAcl p.2.acl = true)
+      e.b.hasAcl p.2.acl = true ∧ Cmp e (al.getD p.1 default).acl p.2.acl)
     (hnd : (ps.map (·.1)).Nodup)
     {st : St} {d : Dev} {σ : String → String → Status} {π : List (Nat × Nat)} (h : Sem e P d0 st d σ π)
     (hπ : ∀ p ∈ ps, (i, p.1) ∉ π) (hσ : ∀ p ∈ ps, σ x p.2.dir = .orig) :
@@ -139,15 +139,15 @@ theorem proc_eqs {e : Env} (hwf : WFE e) {P : List Name} {d0 : Dev} (i : Nat) (x
   induction ps generalizing st d σ π with
   | nil => exact ⟨d, by simpa [updAll] using h⟩
   | cons p ps ih =>
-    obtain ⟨hk, hdir, hb⟩ := hks p (List.mem_cons_self ..)
+    obtain ⟨hk, hdir, hb, hcmp⟩ := hks p (List.mem_cons_self ..)
     have hmem := getD_mem al p.1 hk
     have hdb : isDir p.2.dir = true := by rw [← hdir]; exact hA.dirs _ hmem
-    obtain ⟨d1, h1⟩ := sem_makeEqualBind hwf h i p.1 x (al.getD p.1 default) p.2 (hA.closed _ hmem) hb hdir hdb
+    obtain ⟨d1, h1⟩ := sem_makeEqualBind hwf h i p.1 x (al.getD p.1 default) p.2 (hA.closed _ hmem) hb hcmp hdir hdb
       hA.hasIntf (hσ p (List.mem_cons_self ..)) (by rw [← hdir]; exact hA.slots _ hmem)
     simp only [List.map_cons, List.nodup_cons] at hnd
     have hdirne : ∀ p' ∈ ps, p'.2.dir ≠ p.2.dir := by
       intro p' hp' hc
-      obtain ⟨hk', hdir', _⟩ := hks p' (List.mem_cons_of_mem _ hp')
+      obtain ⟨hk', hdir', _, _⟩ := hks p' (List.mem_cons_of_mem _ hp')
       have hne : p'.1 ≠ p.1 := fun hc' => hnd.1 (hc' ▸ List.mem_map_of_mem (f := (·.1)) hp')
       exact dir_ne_of_ne hA.dirsNd hk hk' hne (by rw [hdir, hdir', hc])
     obtain ⟨d', h'⟩ := ih (fun p' hp' => hks p' (List.mem_cons_of_mem _ hp')) hnd.2 h1
@@ -321,6 +321,7 @@ theorem getD_map_str {α : Type} [Inhabited α] (l : List α) (f : α → String
 bound as the target says (`settled`), or unbound if only the device had a binding (`cleared`). -/
 theorem sem_diffBinds {e : Env} (hwf : WFE e) {P : List Name} {d0 : Dev} (i : Nat) (x : String) (al bl : List Bind)
     (hA : BindsA e d0 x al) (hB : BindsB e bl)
+    (hC : ∀ a ∈ al, ∀ b ∈ bl, a.dir = b.dir → Cmp e a.acl b.acl)
     {st : St} {d : Dev} {σ : String → String → Status} {π : List (Nat × Nat)} (h : Sem e P d0 st d σ π)
     (hπ : ∀ k, (i, k) ∉ π) (hσ : ∀ dir, σ x dir = .orig) :
     ∃ d' σ' π', Sem e P d0 (diffBinds e st i x al bl) d' σ' π' ∧
@@ -560,7 +561,8 @@ theorem sem_diffBinds {e : Env} (hwf : WFE e) {P : List Name} {d0 : Dev} (i : Na
   obtain ⟨d1, h1⟩ := proc_dels i x al hA ks (fun k hk => (hks k hk).1) hksNd h0 (fun k _ => hπ k) (fun k _ => hσ _)
   -- phase 2, pairs
   obtain ⟨d2, h2⟩ := proc_eqs hwf i x al hA ps
-    (fun p hp => ⟨(hps p hp).1, (hps p hp).2.1, hB.closed _ (hps p hp).2.2⟩) hpsNd h1
+    (fun p hp => ⟨(hps p hp).1, (hps p hp).2.1, hB.closed _ (hps p hp).2.2,
+      hC _ (getD_mem al p.1 (hps p hp).1) _ (hps p hp).2.2 (hps p hp).2.1⟩) hpsNd h1
     (by
       intro p hp hc
       rcases List.mem_append.mp hc with hc | hc
